@@ -120,6 +120,11 @@ func init() {
 		if len(args) > 4 {
 			after, _ = strconv.Atoi(args[4])
 		}
+		shard, nshards := 0, 1 // the first token of a sequence selects the shard
+		if len(args) > 6 {
+			shard, _ = strconv.Atoi(args[5])
+			nshards, _ = strconv.Atoi(args[6])
+		}
 		specText, err := os.ReadFile(args[1])
 		if err != nil {
 			fmt.Fprintln(os.Stderr, err)
@@ -175,7 +180,7 @@ func init() {
 		for _, s := range token.FRONTENDTokens.Strings() {
 			names = append(names, s)
 		}
-		if out.ProductMismatch == "" {
+		if out.ProductMismatch == "" && shard == 0 {
 			pr := mc.LRProductT(shipped{}, names, lr, same)
 			out.Pairs, out.Edges, out.ProductMismatch = pr.Pairs, pr.Edges, pr.Mismatch
 		}
@@ -257,12 +262,15 @@ func init() {
 				}
 			}
 		}
-		check(true)
+		if shard == 0 {
+			check(true)
+		}
 		// viable prefixes are followed up to length n. Once the chart is dead (the sequence cannot be completed to a
 		// sentence) continuations are explored only if the parser ASKED for more input after the offending token (a
 		// parser that returned without requesting token k+1 cannot depend on it: exact pruning), and then for `after`
 		// further tokens (within length n);
 		// independently of that argument every sequence up to length full is explored
+		firstIdx := 0
 		var walk func(alive bool, deadAt int)
 		walk = func(alive bool, deadAt int) {
 			// deadAt: length of the sequence when the chart died and the parser asked for more input (0 = not applicable)
@@ -272,17 +280,33 @@ func init() {
 			if !alive && len(seq) >= full && (deadAt == 0 || len(seq)-deadAt >= after) {
 				return
 			}
-			for _, t := range terms {
+			for ti, t := range terms {
+				// the first two tokens select the shard (length-1 sequences are checked by shard 0)
+				if len(seq) == 0 {
+					firstIdx = ti
+				}
+				if len(seq) == 1 && (firstIdx*len(terms)+ti)%nshards != shard {
+					continue
+				}
 				if out.Sequences >= maxSeq {
 					out.Capped = true
 					return
 				}
 				seq = append(seq, t)
 				a := e.Extend(t) && alive
-				if !a {
-					out.NonViableProbes++
+				if len(seq) == 1 && shard != 0 {
+					// counted and checked by shard 0; still needed here to decide how to continue
+					before := *out
+					check(a)
+					keepAsked := asked
+					*out = before
+					asked = keepAsked
+				} else {
+					if !a {
+						out.NonViableProbes++
+					}
+					check(a)
 				}
-				check(a)
 				d := deadAt
 				if alive && !a {
 					d = 0
